@@ -81,6 +81,233 @@ Theorem C01_unwind_info : forall v f u, Dirs.unwind_info v f = Ok u ->
 Proof. exact DirsProofs.unwind_info_shape. Qed.
 Print Assumptions C01_unwind_info.
 
+(* 6. The directory modules, accessor by accessor (vocabulary in Spec/SafetyDirsSpec.v, proofs in
+      Proofs/SafetyDirsProofs.v): every struct reference, array, array element, string and payload slice a parser
+      hands out lies inside the buffer of the view and its address is a multiple of the alignment of the Rust type
+      it is cast to (gen/Layout.v, regenerated from src/image.rs).  [vsafe v align r] = inside [v]'s buffer and
+      (v_addr v + r_off r) mod align = 0; [array_safe v size align n r] adds r_len r = size * n; [elem r size k] is
+      element k; [cstr_safe] = inside and non-empty.  Where a model decodes VALUES (the export tables) the statement
+      is about the slicing step the values were decoded from. *)
+From PV.Model Require Exports Imports VersionInfo Rich Convert.
+From PV.gen Require Import Layout.
+From PV.Spec Require Import SafetyDirsSpec.
+From PV.Spec Require ConvertSimSpec.
+From PV.Proofs Require SafetyDirsProofs.
+
+(* exports: the IMAGE_EXPORT_DIRECTORY reference; the three tables of a By value (&[Rva], &[Rva], &[u16]: the static
+   empty slice or a derva_slice region); the C string every name lookup and forwarder reads *)
+Theorem C01_exports_regions : forall v dd, placed (v_addr v) (v_len v) ->
+  (forall x, Exports.try_from (slice v) dd = Ok x -> vsafe v IMAGE_EXPORT_DIRECTORY_align (export_dir x)) /\
+  (forall t, Exports.view_by v dd = Ok t ->
+     exists x, Exports.try_from (slice v) dd = Ok x /\ vsafe v IMAGE_EXPORT_DIRECTORY_align (export_dir x) /\
+       table_src v 4 u32_align (x_fn v x IMAGE_EXPORT_DIRECTORY_AddressOfFunctions_off) (x_fn v x IMAGE_EXPORT_DIRECTORY_NumberOfFunctions_off) (Exports.t_funcs t) /\
+       table_src v 4 u32_align (x_fn v x IMAGE_EXPORT_DIRECTORY_AddressOfNames_off) (x_fn v x IMAGE_EXPORT_DIRECTORY_NumberOfNames_off) (Exports.t_names t) /\
+       table_src v 2 u16_align (x_fn v x IMAGE_EXPORT_DIRECTORY_AddressOfNameOrdinals_off) (x_fn v x IMAGE_EXPORT_DIRECTORY_NumberOfNames_off) (Exports.t_idxs t)) /\
+  (forall a s, Exports.view_cstr v a = Ok s ->
+     exists r, rd_c_str (v_get v) (slice v) a = Ok r /\ cstr_safe v r /\ s = Exports.bytes_of (v_get v) (r_off r) (r_len r - 1)).
+Proof. exact SafetyDirsProofs.exports_regions. Qed.
+Print Assumptions C01_exports_regions.
+
+(* imports: the descriptor array and each descriptor; dll names; the IAT / INT thunk arrays of a descriptor (&[Va],
+   4-byte aligned in PE32, 8-byte aligned in PE32+) and each thunk; the name of a by-name import; the IAT directory *)
+Theorem C01_imports_regions : forall p, placed (v_addr (Imports.p_v p)) (v_len (Imports.p_v p)) ->
+  (forall r, Imports.imports p = Ok r ->
+     exists n, array_safe (Imports.p_v p) IMAGE_IMPORT_DESCRIPTOR_size IMAGE_IMPORT_DESCRIPTOR_align n r /\
+       forall k, k < n -> vsafe (Imports.p_v p) IMAGE_IMPORT_DESCRIPTOR_align (elem r IMAGE_IMPORT_DESCRIPTOR_size k)) /\
+  (forall d r, Imports.dll_name p d = Ok r -> cstr_safe (Imports.p_v p) r) /\
+  (forall rva r, Imports.thunks p rva = Ok r ->
+     exists n, array_safe (Imports.p_v p) (Imports.va_bytes p) (va_align p) n r /\
+       forall k, k < n -> vsafe (Imports.p_v p) (va_align p) (elem r (Imports.va_bytes p) k)) /\
+  (forall va i, Imports.import_from_va p va = Ok i -> import_safe p i) /\
+  (forall r, Forall (fun ri => forall i, ri = Ok i -> import_safe p i) (Imports.int_imports p r)) /\
+  (forall r, Imports.iat p = Ok r ->
+     exists d, Imports.dir_entry p IMAGE_DIRECTORY_ENTRY_IAT = Ok d /\
+       array_safe (Imports.p_v p) (Imports.va_bytes p) (va_align p) (snd d / Imports.va_bytes p) r /\
+       forall k, k < snd d / Imports.va_bytes p -> vsafe (Imports.p_v p) (va_align p) (elem r (Imports.va_bytes p) k)) /\
+  (forall r, Forall (fun x => forall i, snd x = Ok i -> import_safe p i) (Imports.iat_iter p r)).
+Proof. exact SafetyDirsProofs.imports_regions. Qed.
+Print Assumptions C01_imports_regions.
+
+(* exception: the &[RUNTIME_FUNCTION] and each record; the bytes of a function; the &UNWIND_INFO (alignment 1) and the
+   &[UNWIND_CODE] that unwind_codes() builds with from_raw_parts directly behind it, ending where the checked region ends *)
+Theorem C01_exception_regions : forall v, placed (v_addr v) (v_len v) ->
+  (forall dd r, Dirs.exception_try_from v dd = Ok r ->
+     exists n, array_safe v RUNTIME_FUNCTION_size RUNTIME_FUNCTION_align n r /\
+       forall k, k < n -> vsafe v RUNTIME_FUNCTION_align (elem r RUNTIME_FUNCTION_size k)) /\
+  (forall f r, Dirs.function_bytes v f = Ok r -> region_in (v_len v) r /\ r_len r = Dirs.rf_end f - Dirs.rf_begin f) /\
+  (forall f u, Dirs.unwind_info v f = Ok u ->
+     vsafe v UNWIND_INFO_align u /\ UNWIND_INFO_size <= r_len u /\
+     r_off (Dirs.uw_codes (v_get v) u) = r_off u + UNWIND_INFO_UnwindCode_off /\
+     r_len (Dirs.uw_codes (v_get v) u) = UNWIND_CODE_size * Dirs.uw_count (v_get v) u /\
+     r_off (Dirs.uw_codes (v_get v) u) + r_len (Dirs.uw_codes (v_get v) u) = r_off u + r_len u /\
+     vsafe v UNWIND_CODE_align (Dirs.uw_codes (v_get v) u)).
+Proof. exact SafetyDirsProofs.exception_regions. Qed.
+Print Assumptions C01_exception_regions.
+
+(* security: the certificate lies inside the file, starts at a multiple of align_of::<WIN_CERTIFICATE>() and has at least
+   the 8 header bytes that image() dereferences and certificate_data() skips with get_unchecked(8..) *)
+Theorem C01_security_region : forall v dd r, Dirs.security_try_from v dd = Ok r ->
+  vsafe v WIN_CERTIFICATE_align r /\ WIN_CERTIFICATE_size <= r_len r /\
+  exists d, Dirs.certificate_data r = Ok d /\ region_in (v_len v) d /\
+            r_off d = r_off r + WIN_CERTIFICATE_bCertificate_off /\ r_off d + r_len d = r_off r + r_len r.
+Proof. exact SafetyDirsProofs.security_region. Qed.
+Print Assumptions C01_security_region.
+
+(* debug: the &[IMAGE_DEBUG_DIRECTORY], each entry of it and each Dir the iterator yields; Dir::data; the casts of
+   Dir::entry (CodeView PDB20 / PDB70 header + file name, IMAGE_DEBUG_MISC, the PGO dword slice, raw bytes);
+   pdb_file_name; every name PgoIter cuts out of the dword slice *)
+Theorem C01_debug_regions : forall v, placed (v_addr v) (v_len v) ->
+  (forall dd r, Dirs.debug_try_from v dd = Ok r ->
+     exists n, array_safe v IMAGE_DEBUG_DIRECTORY_size IMAGE_DEBUG_DIRECTORY_align n r /\
+       (forall k, k < n -> vsafe v IMAGE_DEBUG_DIRECTORY_align (elem r IMAGE_DEBUG_DIRECTORY_size k)) /\
+       (forall d, In d (Dirs.debug_dirs v r) ->
+          vsafe v IMAGE_DEBUG_DIRECTORY_align {| r_off := Dirs.dd_off d; r_len := IMAGE_DEBUG_DIRECTORY_size |})) /\
+  (forall d b, Dirs.dir_data v d = Some b -> region_in (v_len v) b) /\
+  (forall d e, Dirs.dir_entry v d = Ok e -> entry_safe v e) /\
+  (forall ds n, Dirs.pdb_file_name v ds = Some n -> cstr_safe v n) /\
+  (forall image items, vsafe v u32_align image -> Dirs.pgo_iter (v_get v) image = Ok items ->
+     Forall (fun it => cstr_safe v (Dirs.pg_name it) /\ r_off image <= r_off (Dirs.pg_name it) /\
+                       r_off (Dirs.pg_name it) + r_len (Dirs.pg_name it) <= r_off image + r_len image) items).
+Proof. exact SafetyDirsProofs.debug_regions. Qed.
+Print Assumptions C01_debug_regions.
+
+(* TLS: the IMAGE_TLS_DIRECTORY32 / 64 reference (alignment 4 / 8); raw data; the &u32 slot; the &[Va] of callbacks *)
+Theorem C01_tls_regions : forall v, placed (v_addr v) (v_len v) ->
+  (forall dd t, Dirs.tls_try_from v dd = Ok t -> vsafe v (tls_align v) t /\ r_len t = tls_size v) /\
+  (forall t r, Dirs.tls_raw_data v t = Ok r -> region_in (v_len v) r /\ r_len r = Dirs.tls_end v t - Dirs.tls_start v t) /\
+  (forall t r, Dirs.tls_slot v t = Ok r -> vsafe v u32_align r /\ r_len r = 4) /\
+  (forall t r, Dirs.tls_callbacks v t = Ok r ->
+     exists n, array_safe v (Dirs.va_size v) (va_align_v v) n r /\
+       forall k, k < n -> vsafe v (va_align_v v) (elem r (Dirs.va_size v) k)).
+Proof. exact SafetyDirsProofs.tls_regions. Qed.
+Print Assumptions C01_tls_regions.
+
+(* load config: the IMAGE_LOAD_CONFIG_DIRECTORY32 / 64 reference (alignment 4 / 8); the &u32 cookie; the &[Va] handler table *)
+Theorem C01_load_config_regions : forall v, placed (v_addr v) (v_len v) ->
+  (forall dd t, Dirs.load_config_try_from v dd = Ok t -> vsafe v (lc_align v) t /\ r_len t = lc_size v) /\
+  (forall t r, Dirs.lc_security_cookie v t = Ok r -> vsafe v u32_align r /\ r_len r = 4) /\
+  (forall t r, Dirs.lc_se_handler_table v t = Ok r ->
+     array_safe v (Dirs.va_size v) (va_align_v v) (Dirs.lc_count v t) r /\
+     forall k, k < Dirs.lc_count v t -> vsafe v (va_align_v v) (elem r (Dirs.va_size v) k)).
+Proof. exact SafetyDirsProofs.load_config_regions. Qed.
+Print Assumptions C01_load_config_regions.
+
+(* resources: all offsets are relative to the section [s] (address rs_addr, rs_len bytes); [sec_safe s align o size] =
+   [size] bytes at offset [o] inside the section, at an address that is a multiple of [align].  Resources::slice / slice_ws;
+   Directory::try_from with the entry arrays of entries() / named_entries() / id_entries() and each entry; wide names;
+   sub-directories and data entries; DataEntry::bytes; the find.rs queries; GroupResource::new with its entry array *)
+Theorem C01_resources_regions : forall s,
+  (forall off size align o, splaced s -> Resources.rslice s off size align = Ok o -> o = off /\ sec_safe s align o size) /\
+  (forall off o n, Resources.slice_ws s off = Ok (o, n) ->
+     o = off + 2 /\ n = Resources.rd16 s off /\ sec_safe s u16_align off 2 /\ sec_safe s u16_align o (2 * n)) /\
+  (forall off o, Resources.dir_try_from s off = Ok o ->
+     o = off /\ ent_safe s (Resources.EDir o) /\
+     (forall e, In e (Resources.entries s o) -> sec_safe s IMAGE_RESOURCE_DIRECTORY_ENTRY_align e IMAGE_RESOURCE_DIRECTORY_ENTRY_size) /\
+     (forall e, In e (Resources.named_entries s o) -> In e (Resources.entries s o)) /\
+     (forall e, In e (Resources.id_entries s o) -> In e (Resources.entries s o))) /\
+  (forall e nm, Resources.e_name s e = Ok nm ->
+     match nm with
+     | Resources.NId _ => True
+     | Resources.NWide ws => exists o n, Resources.slice_ws s (Resources.rd32 s e - Resources.B31) = Ok (o, n) /\ ws = Resources.words s o n /\
+                               sec_safe s u16_align (Resources.rd32 s e - Resources.B31) 2 /\ sec_safe s u16_align o (2 * n)
+     | Resources.NStr _ => False
+     end) /\
+  (forall e x, Resources.e_entry s e = Ok x -> ent_safe s x) /\
+  (forall o r, Resources.data_bytes s o = Ok r -> region_in (Resources.rs_len s) r) /\
+  (forall lo a b r, Resources.find_resource lo s a b = Resources.FOk r -> region_in (Resources.rs_len s) r) /\
+  (forall lo a b c r, Resources.find_resource_ex lo s a b c = Resources.FOk r -> region_in (Resources.rs_len s) r) /\
+  (forall r, Resources.manifest s = Resources.FOk r -> region_in (Resources.rs_len s) r) /\
+  (forall r, Resources.version_info s = Resources.FOk r -> region_in (Resources.rs_len s) r /\ (Resources.rs_addr s + r_off r) mod 4 = 0) /\
+  (forall g g', region_in (Resources.rs_len s) g -> Resources.group_new s g = Ok g' ->
+     g' = g /\ sec_safe s GRPICONDIR_align (r_off g) GRPICONDIR_size /\
+     r_len g = GRPICONDIR_size + GRPICONDIRENTRY_size * Resources.g_count s g /\
+     forall e, In e (Resources.g_entries s g) ->
+       sec_safe s GRPICONDIRENTRY_align e GRPICONDIRENTRY_size /\ r_off g + GRPICONDIR_size <= e /\
+       e + GRPICONDIRENTRY_size <= r_off g + r_len g) /\
+  (forall g id r, Resources.g_image s g id = Resources.FOk r -> region_in (Resources.rs_len s) r).
+Proof. exact SafetyDirsProofs.resources_regions. Qed.
+Print Assumptions C01_resources_regions.
+(* icons() / cursors(): every group resource of the listing *)
+Theorem C01_resource_groups : forall s ty, Forall (fun x => forall nm g, x = Resources.FOk (nm, g) ->
+    region_in (Resources.rs_len s) g /\ sec_safe s GRPICONDIR_align (r_off g) GRPICONDIR_size /\
+    r_len g = GRPICONDIR_size + GRPICONDIRENTRY_size * Resources.g_count s g /\
+    forall e, In e (Resources.g_entries s g) -> sec_safe s GRPICONDIRENTRY_align e GRPICONDIRENTRY_size /\
+      r_off g + GRPICONDIR_size <= e /\ e + GRPICONDIRENTRY_size <= r_off g + r_len g) (Resources.group_list s ty).
+Proof. exact SafetyDirsProofs.group_list_safe. Qed.
+Print Assumptions C01_resource_groups.
+(* Pe::resources() of a file or mapped view: the section is a borrow of the view's buffer, so a section borrow that is
+   inside the section and aligned is inside the buffer and aligned *)
+Theorem C01_resources_in_view : forall v dd s, placed (v_addr v) (v_len v) -> ConvertSimSpec.view_resources v dd = Ok s ->
+  exists off, sec_of_view v s off /\ splaced s /\
+    (forall align o size, sec_safe s align o size -> vsafe v align {| r_off := off + o; r_len := size |}) /\
+    (forall r, region_in (Resources.rs_len s) r -> region_in (v_len v) {| r_off := off + r_off r; r_len := r_len r |}).
+Proof. exact SafetyDirsProofs.view_resources_safe. Qed.
+Print Assumptions C01_resources_in_view.
+
+(* version info: the &[u16] view of the resource bytes; key / value / children of every block inside the words given to
+   the parser; the VS_FIXEDFILEINFO cast (a 52-byte value of the first block of a dword aligned resource is dword aligned
+   and inside; the model's misaligned-cast fault is unreachable); Language::from_slice *)
+Theorem C01_version_info_regions :
+  (forall base bytes ws, VersionInfo.try_from base bytes = Ok ws ->
+     base mod 4 = 0 /\ base mod u16_align = 0 /\ ws = VersionInfo.words_of bytes /\ 2 * lenN ws <= lenN bytes) /\
+  (forall vl ws t rest, vi_len_ok ws -> VersionInfo.parse_tlv vl ws = Ok (t, rest) ->
+     3 + lenN (VersionInfo.t_key t) <= lenN ws /\ VersionInfo.t_voff t + lenN (VersionInfo.t_value t) <= lenN ws /\
+     VersionInfo.t_voff t + lenN (VersionInfo.t_value t) + lenN (VersionInfo.t_children t) <= lenN ws) /\
+  (forall base ws t rest, base mod 4 = 0 -> vi_len_ok ws -> VersionInfo.parse_tlv VersionInfo.VBytes ws = Ok (t, rest) ->
+     2 * lenN (VersionInfo.t_value t) = VS_FIXEDFILEINFO_size ->
+     VersionInfo.fixed_ref base t = Ok (Some (VersionInfo.t_value t)) /\
+     (base + 2 * VersionInfo.t_voff t) mod VS_FIXEDFILEINFO_align = 0 /\
+     2 * VersionInfo.t_voff t + VS_FIXEDFILEINFO_size <= 2 * lenN ws) /\
+  (forall ws, Language_size * lenN (VersionInfo.lang_from_slice ws) <= 2 * lenN ws) /\
+  Language_align = u16_align.
+Proof. exact SafetyDirsProofs.version_info_regions. Qed.
+Print Assumptions C01_version_info_regions.
+
+(* Rich structure, on the dword view of C01_dword_view: the dos stub, the Rich image and the record words are dword
+   slices inside the buffer *)
+Theorem C01_rich_region : forall v s e, v_addr v mod 4 = 0 -> ConvertSimSpec.view_rich (v_get v) (v_len v) = Ok (s, e) ->
+  (16 <= s)%nat /\ (s + 6 <= e)%nat /\ 4 * N.of_nat e <= v_len v /\
+  vsafe v u32_align {| r_off := 0; r_len := 4 * N.of_nat s |} /\
+  vsafe v u32_align {| r_off := 4 * N.of_nat s; r_len := 4 * N.of_nat (e - s) |} /\
+  vsafe v u32_align {| r_off := 4 * N.of_nat (s + 4); r_len := 4 * N.of_nat (e - s - 6) |}.
+Proof. exact SafetyDirsProofs.view_rich_region. Qed.
+Print Assumptions C01_rich_region.
+
+(* base relocations: the directory bytes are inside the buffer and dword aligned, and (with C01_reloc_blocks) every block
+   header IterBlocks::peek dereferences starts at a multiple of 4 inside the directory *)
+Theorem C01_relocs_region : forall v dd r, placed (v_addr v) (v_len v) -> ConvertSimSpec.relocs_try_from v dd = Ok r ->
+  vsafe v IMAGE_BASE_RELOCATION_align r /\ exists va, dd = Some (va, r_len r).
+Proof. exact SafetyDirsProofs.relocs_try_from_safe. Qed.
+Print Assumptions C01_relocs_region.
+Theorem C01_reloc_blocks_aligned : forall data bs off, off mod 4 = 0 -> chainb data off bs = true ->
+  Forall (fun b => b_off b mod 4 = 0 /\ b_off b + IMAGE_BASE_RELOCATION_size + 2 * lenN (b_words b) <= lenN data) bs.
+Proof. exact SafetyDirsProofs.reloc_blocks_aligned. Qed.
+Print Assumptions C01_reloc_blocks_aligned.
+
+(* 7. the unchecked accesses that hand out no borrow - the models mark them with a UB fault - are unreachable: the header
+      copy of to_view / to_file (get_unchecked(..SizeOfHeaders) on source and destination), the probe of binary_search_by
+      in the exception lookup, the VS_FIXEDFILEINFO cast of a dword aligned version resource *)
+Theorem C01_no_ub :
+  (forall f m, mem_ok m -> no_fault (Convert.pe_to_view f m)) /\
+  (forall f m, mem_ok m -> no_fault (Convert.pe_to_file f m)) /\
+  (forall t pc, no_fault (Dirs.index_of t pc)) /\
+  (forall t pc, no_fault (Dirs.lookup_function_entry t pc)) /\
+  (forall St (V : VersionInfo.visitor St) base ws s, base mod 4 = 0 -> vi_len_ok ws -> no_fault (VersionInfo.visit V false base ws s)).
+Proof. exact SafetyDirsProofs.no_ub. Qed.
+Print Assumptions C01_no_ub.
+
+(* 8. the invariant of CStr (from_bytes_unchecked: "the byte slice ends with the only nul byte"; AsRef strips it with
+      get_unchecked(..len - 1)): every string handed out by derva_c_str / deref_c_str - export and forwarder names, dll
+      names, import names - and by the debug parsers (pdb file names, PGO section names) is non-empty, ends with a NUL
+      and contains no other *)
+Theorem C01_c_str_invariant :
+  (forall get sl a q, rd_c_str get sl a = Ok q ->
+     0 < r_len q /\ get (r_off q + r_len q - 1) = 0 /\ forall k, k < r_len q - 1 -> get (r_off q + k) <> 0) /\
+  (forall g off len q, Dirs.cstr_from_bytes g off len = Some q ->
+     r_off q = off /\ 0 < r_len q /\ r_len q <= len /\ g (r_off q + r_len q - 1) = 0 /\ forall k, k < r_len q - 1 -> g (r_off q + k) <> 0).
+Proof. exact SafetyDirsProofs.c_str_invariants. Qed.
+Print Assumptions C01_c_str_invariant.
+
 (* defects repaired in /repo, as theorems about the code as it stood *)
 (* F3: a file-view slice tested the alignment of base+rva but returned base+PointerToRawData+(rva-VA) *)
 Theorem C01_F3_slice_file_orig_refuted :
@@ -100,4 +327,23 @@ Example C01_nonvacuous :
               v_w := W64; v_base := 5368709120; v_soh := 1024; v_soi := 8192; v_secs := [] |} in
   slice v 4096 4 4 = Ok {| r_off := 4096; r_len := 4096 |} /\
   rd_c_str (v_get v) (sl_of v false) 4096 = Ok {| r_off := 4096; r_len := 5 |}.
+Proof. vm_compute. repeat split; reflexivity. Qed.
+
+(* the directory statements are not vacuous: on a mapped PE32+ view of zero bytes (and on a file view for the security
+   directory, on the example section of C12 for resources) every parser returns a region *)
+Example C01_dirs_nonvacuous :
+  let v := {| v_file := false; v_addr := 4096; v_len := 8192; v_get := fun _ => 0;
+              v_w := W64; v_base := 5368709120; v_soh := 1024; v_soi := 8192; v_secs := [] |} in
+  let f := {| v_file := true; v_addr := 4096; v_len := 8192; v_get := fun _ => 0;
+              v_w := W64; v_base := 5368709120; v_soh := 1024; v_soi := 8192; v_secs := [] |} in
+  Exports.try_from (slice v) (Some (4096, 40)) = Ok 4096 /\
+  Dirs.exception_try_from v (Some (4096, 24)) = Ok {| r_off := 4096; r_len := 24 |} /\
+  Dirs.unwind_info v {| Dirs.rf_begin := 4096; Dirs.rf_end := 4100; Dirs.rf_unwind := 4104 |} = Ok {| r_off := 4104; r_len := 4 |} /\
+  Dirs.debug_try_from v (Some (4096, 56)) = Ok {| r_off := 4096; r_len := 56 |} /\
+  Dirs.tls_try_from v (Some (4096, 40)) = Ok {| r_off := 4096; r_len := 40 |} /\
+  Dirs.load_config_try_from v (Some (4096, 112)) = Ok {| r_off := 4096; r_len := 112 |} /\
+  Dirs.security_try_from f (Some (4096, 16)) = Ok {| r_off := 4096; r_len := 16 |} /\
+  Resources.dir_try_from ResourcesProofs.ex_sec 0 = Ok 0 /\
+  Resources.e_entry ResourcesProofs.ex_sec 16 = Ok (Resources.EData 24) /\
+  Resources.data_bytes ResourcesProofs.ex_sec 24 = Ok {| r_off := 40; r_len := 4 |}.
 Proof. vm_compute. repeat split; reflexivity. Qed.
